@@ -249,6 +249,38 @@ def hairline_corpus(ctx):
     pred[0, 2550] = 2                       # ... and one outside: union 2502, inter 1252 -> 0.50039968
     ctx.count("scores_within_1e-3_of_threshold")
     one_case(ctx, pred, ref, "IOU", (1, 2), "corpus.hairline-merge")
+    # differences below single-precision resolution (6e-8 around 0.5..1): decided exactly by the definitions, and by double arithmetic
+    # (a) the union scores *exactly* the same as the best single candidate (70/100 = 77/110; Dice 140/200 = 154/220 likewise): no merge
+    ref = np.zeros((1, 130), np.uint8)
+    pred = np.zeros((1, 130), np.uint8)
+    ref[0, 10:110] = 1
+    pred[0, 10:80] = 1                      # IoU 70/100
+    pred[0, 103:113] = 2                    # 7 inside, 3 outside: union 77/110
+    ctx.count("scores_within_1e-7_of_each_other")
+    one_case(ctx, pred, ref, "IOU", (1, 2), "corpus.hairline-equal-iou")
+    # the same scene under Dice (140/170 single, 154/180 combined: merged)
+    one_case(ctx, pred, ref, "DSC", (1, 2), "corpus.hairline-equal-iou")
+    # (b) the union scores worse by 2.4e-8: 2898/5003 single, 4897/8454 combined
+    ref = np.zeros((1, 9000), np.uint8)
+    pred = np.zeros((1, 9000), np.uint8)
+    ref[0, 0:5000] = 1
+    pred[0, 0:2898] = 1                     # 2898 inside ...
+    pred[0, 8500:8503] = 1                  # ... 3 outside: 2898/5003
+    pred[0, 2898:2898 + 1999] = 2           # fragment: 1999 inside ...
+    pred[0, 5010:5010 + 3451] = 2           # ... 3451 outside: 4897/8454
+    ctx.count("scores_within_1e-7_of_each_other")
+    one_case(ctx, pred, ref, "IOU", (1, 2), "corpus.hairline-2e-8")
+    # (c) a threshold between a score and its single-precision rounding: IoU exactly 3/5 against 0.60000001
+    ref = np.zeros((1, 30), np.uint8)
+    pred = np.zeros((1, 30), np.uint8)
+    ref[0, 0:10] = 1
+    pred[0, 4:10] = 1                       # 6/10
+    ctx.count("scores_within_1e-7_of_threshold")
+    one_case(ctx, pred, ref, "IOU", (60000001, 100000000), "corpus.hairline-threshold-1e-8")
+    ref[0, 20:30] = 2
+    pred[0, 20:27] = 2                      # 7/10 against 0.69999999 (met) and 0.70000001 (not met)
+    one_case(ctx, pred, ref, "IOU", (70000001, 100000000), "corpus.hairline-threshold-1e-8")
+    one_case(ctx, pred, ref, "IOU", (69999999, 100000000), "corpus.hairline-threshold-1e-8")
 
 
 def big_and_small_corpus(ctx):
